@@ -65,12 +65,21 @@ Theorem C01_pickle_roundtrip : forall hist c hs flags,
 Proof. exact pickle_roundtrip. Qed.
 Print Assumptions C01_pickle_roundtrip.
 
-(* ... and, read off the CURRENT source: TypeBlocks.__setstate__ re-freezes every block and Series.__setstate__
-   re-freezes values, so the hypothesis holds for a TypeBlocks of any number of blocks. *)
-Theorem C01_setstate_refreezes_blocks_and_values : forall n,
-  forallb (fun b => b) (repeat pickle_flag_block n) = true /\ pickle_flag_series_values = true.
-Proof. exact (fun n => conj (proj2 (forallb_forall _ _) (fun b H => eq_trans (repeat_spec n _ b H) eq_refl)) eq_refl). Qed.
-Print Assumptions C01_setstate_refreezes_blocks_and_values.
+(* ... and, read off the CURRENT source (Gen_c01, regenerated from the AST on every run): __setstate__ of every class that owns
+   ndarray slots re-freezes all of them -- TypeBlocks._blocks, Series.values, Index._labels and _positions, ArrayGO._array -- so the
+   hypothesis of C01_pickle_roundtrip holds for TypeBlocks of any width, Index, Series and one-block Frames. *)
+Theorem C01_setstate_refreezes_every_array_slot : forall n,
+  forallb (fun b => b) (repeat pickle_flag_block n) = true /\
+  forallb (fun b => b) pickle_flags_index = true /\
+  forallb (fun b => b) pickle_flags_series = true /\
+  forallb (fun b => b) pickle_flags_frame1 = true /\
+  pickle_flag_arraygo = true /\
+  forallb (fun e => forallb (fun s => snd s) (snd e)) setstate_refreezes = true.
+Proof.
+  exact (fun n => conj (proj2 (forallb_forall _ _) (fun b H => eq_trans (repeat_spec n _ b H) eq_refl))
+                       (conj eq_refl (conj eq_refl (conj eq_refl (conj eq_refl eq_refl))))).
+Qed.
+Print Assumptions C01_setstate_refreezes_every_array_slot.
 
 Theorem C01_deepcopy_roundtrip : forall hist c hs,
   guarded w0 hist = true ->
